@@ -210,7 +210,7 @@ fn layout_equivalence(run: &mut Run, tier: Tier) {
 
 pub fn main(tier: Tier, replay: Option<serde_json::Value>) -> i32 {
     let mut run = Run::new("C09", tier, "model_checking");
-    run.rule = "cases = (entry point, width, value) with boundary values per width; for each the honest assignment and every bound-1 deviation (bound 2 for widths <= 12 in thorough) of the gadget's own allocations, re-run through the real witness generator, is decided by M1; predicate: satisfiable iff canonical value < 2^w and no deviation makes an out-of-range value satisfiable; non-trivial = distinct (entry, width, value) whose exploration ran".into();
+    run.rule = "cases = (entry point, width, value) with boundary values per width; for each the honest assignment and every bound-1 deviation (bound 2 for widths <= 12 in thorough) of the gadget's own allocations, re-run through the real witness generator, is decided by M1; predicate: satisfiable iff canonical value < 2^w and no deviation makes an out-of-range value satisfiable; non-trivial = distinct (entry, width, value) whose exploration ran; non-initial states: constant witnesses ZERO / ONE as the checked value, and witnesses already range-checked to another width (every ordered pair of widths)".into();
     let cs = cases(tier);
     let cache = ConfirmCache::new(crate::setup::pp(1 << 9));
     if let Some(r) = replay {
